@@ -7,6 +7,7 @@ import Adc.SpinSplit
 import Adc.Expand
 import Adc.Series
 import Adc.Scaling
+import Adc.Latex
 /- Line-protocol driver: one JSON request per line on stdin, one JSON answer per line on stdout. -/
 open Lean Adc Adc.Wire
 
@@ -177,6 +178,29 @@ def handle (j : Json) : P Json := do
     let sc := stepScaling ops (tt ++ ext)
     let jS (s : Scal) : Json := Json.arr #[s.total, s.gen, s.virt, s.occ]
     pure (Json.mkObj [("contracted", jIdxs ct.1), ("target", jIdxs ct.2), ("comp", jS sc.1), ("mem", jS sc.2)])
+  | "idxprint" | "idximport" | "tensorprint" | "tensorimport" =>   -- C18: index-string / tensor grammar
+    let pSp (n : Nat) : P Spin := pSpin n
+    let pPIdx (x : Json) : P PIdx := do
+      let a ← arr x
+      pure ((← (a[0]!).getStr?).toList, ← pSp (← (a[1]!).getNat?))
+    let jPIdx (i : PIdx) : Json := Json.arr #[(String.ofList i.1 : Json), (i.2.toNat : Json)]
+    let jGroups (gs : List (List PIdx)) : Json := Json.arr (gs.map fun g => Json.arr (g.map jPIdx).toArray).toArray
+    if op == "idxprint" then
+      let l ← (← arr (← fld j "l")).toList.mapM pPIdx
+      pure (Json.mkObj [("s", (String.ofList (printIdxs l) : Json))])
+    else if op == "idximport" then
+      match importIndices (← (← fld j "s").getStr?).toList with
+      | none => pure (Json.mkObj [("ok", false)])
+      | some l => pure (Json.mkObj [("ok", true), ("l", Json.arr (l.map jPIdx).toArray)])
+    else if op == "tensorprint" then
+      let gs ← (← arr (← fld j "groups")).toList.mapM fun g => do (← arr g).toList.mapM pPIdx
+      let t : PTensor := { name := (← (← fld j "name").getStr?).toList, groups := gs, expo := (← (← fld j "expo").getStr?).toList }
+      pure (Json.mkObj [("s", (String.ofList (printTensor t) : Json)), ("wf", wfPTensor t)])
+    else
+      match importTensor (← (← fld j "s").getStr?).toList with
+      | none => pure (Json.mkObj [("ok", false)])
+      | some t => pure (Json.mkObj [("ok", true), ("name", (String.ofList t.name : Json)), ("groups", jGroups t.groups),
+                                    ("expo", (String.ofList t.expo : Json))])
   | _ => throw s!"unknown op {op}"
 
 partial def loop (h : IO.FS.Stream) (out : IO.FS.Stream) : IO Unit := do
